@@ -53,9 +53,11 @@ type RemoteParams struct {
 	PlainHTTP bool       `json:"plain_http,omitempty"`
 	// MMT: Repository.ManifestMediaTypes. When set, content of any other media type is
 	// routed to the blob endpoints, manifests included.
-	MMT    []string  `json:"manifest_media_types,omitempty"`
-	SkipGC bool      `json:"skip_referrers_gc,omitempty"`
-	Fault  *NetFault `json:"fault,omitempty"`
+	MMT []string `json:"manifest_media_types,omitempty"`
+	// MMTEmpty: ManifestMediaTypes is an empty, non-nil list, which is documented to mean the defaults
+	MMTEmpty bool      `json:"manifest_media_types_empty,omitempty"`
+	SkipGC   bool      `json:"skip_referrers_gc,omitempty"`
+	Fault    *NetFault `json:"fault,omitempty"`
 	// FaultPick: when set (and Fault is nil) the fault is placed on the FaultPick-th exchange (modulo)
 	// of a fault-free run of the same history, and Fault is filled in
 	FaultPick []uint64 `json:"fault_pick,omitempty"`
@@ -108,7 +110,9 @@ func (p *remoteProp) Gen(r *Rand, tier string, idx int) any {
 		rp.Profile.DigestHeader = true
 	}
 	rp.PlainHTTP = r.Bool()
-	if r.Chance(0.2) {
+	if r.Chance(0.08) {
+		rp.MMTEmpty = true
+	} else if r.Chance(0.2) {
 		// every set contains the OCI index type: the referrers tag schema stores its
 		// indexes under it, and a client that does not accept it cannot read them back
 		rp.MMT = pick(r, [][]string{
@@ -288,6 +292,9 @@ func (p *remoteProp) placeFault(rc *RunCtx, rp *RemoteParams) {
 	repo.Client = &http.Client{Transport: reg}
 	repo.PlainHTTP, repo.SkipReferrersGC = rp.PlainHTTP, rp.SkipGC
 	repo.ManifestMediaTypes = rp.MMT
+	if rp.MMTEmpty {
+		repo.ManifestMediaTypes = []string{}
+	}
 	scratch := &remoteProp{uncertain: map[string]bool{}}
 	n := 0
 	simrt.Run(rc.ScratchConfig(), func() {
@@ -383,6 +390,10 @@ func (p *remoteProp) run(rc *RunCtx, rp *RemoteParams, info *RunInfo) *Verdict {
 	repo.PlainHTTP = rp.PlainHTTP
 	repo.SkipReferrersGC = rp.SkipGC
 	repo.ManifestMediaTypes = rp.MMT
+	if rp.MMTEmpty {
+		repo.ManifestMediaTypes = []string{}
+		info.Probes["manifest_media_types_empty_list"]++
+	}
 	if len(rp.MMT) > 0 {
 		info.Probes["manifest_media_types_restricted"]++
 	}
